@@ -6,22 +6,22 @@ ALL = ["C%02d" % i for i in range(1, 21)]
 TB = "Trusted base: the harness's baseapp-equivalent delivery (branch, run, write on success, recover panics), the cosmos-sdk bank/auth keepers, and the independent ref implementation; rollback of rejected messages is never counted as evidence."
 CHECKS = {
  "C01": dict(level="exploration", design="§3 C01",
-   text="Conservation ledger + isolation monitor evaluated after every message of seeded random multi-bridge histories over the real ophost handlers (all message types, valid and invalid, third-party sends, forged and cross-bridge claims): escrow == ledger for every id, exact per-account balance deltas, unchanged supply, byte-identical views and raw-key attribution for all other bridges. Held on the executions listed in the evidence.",
+   text="Conservation ledger + isolation monitor evaluated after every message of seeded random multi-bridge histories over the real ophost handlers (all message types, valid and invalid, third-party sends, forged and cross-bridge claims, deposits around 2^63/2^64 by a funded account, and scripts executed on state branches that are thrown away — create-bridge+deposit, ghost proposals+claims): escrow == ledger for every id, exact per-account balance deltas, unchanged supply, byte-identical views and raw-key attribution for all other bridges. Held on the executions listed in the evidence.",
    note=TB, technique="runtime reference-model monitor (conservation ledger, per-bridge view isolation) over random histories"),
  "C02": dict(level="exploration", design="§3 C02",
    text="Exactly-once monitor (paid counter per withdrawal identity, recipient balance = sum of paid amounts, Claimed query agreement incl. other bridge ids) over a memoised bounded-exhaustive DFS on copy-on-write branches (3 leaves, 4 overlapping tree variants, <=3 live outputs, propose/delete/advance/finalize) and over long random histories with re-included leaves, deletions and re-proposals.",
    note=TB, technique="runtime exactly-once monitor over bounded-exhaustive DFS + random histories"),
  "C03": dict(level="exploration", design="§3 C03",
-   text="Soundness oracle: every accepted finalization is re-verified with an independent implementation against the output stored at the named index; a perturbation engine submits, for every tree size/shape/position, each single-field mutation (every bit position of roots and proof elements, arithmetic on sequence/amount, foreign bridge/output, swapped and concatenated addresses, structural proof edits) and random multi-field mixes in three oracle states, with the unperturbed claim as positive control.",
+   text="Soundness oracle: every accepted finalization is re-verified with an independent implementation against the output stored at the named index; a perturbation engine submits, for every tree size/shape/position, each single-field mutation (every bit position of roots and proof elements, arithmetic on sequence/amount, foreign bridge/output, swapped and concatenated addresses, structural proof edits) and random multi-field mixes in three oracle states, with the unperturbed claim as positive control; deep paths (1..256), stored-root byte perturbation, and ghost roots proposed only on discarded branches. The stored root is read by iteration, not through the getter the handler uses.",
    note=TB+" Hash collisions are not searched for.", technique="runtime soundness oracle + exhaustive single-field perturbation with positive controls"),
  "C04": dict(level="exploration", design="§3 C04",
-   text="Completeness monitor over two real chains and a faithful executor model that acts only on parsed events: for every tree size up to the bound, both completion rules, mixes of user and refund withdrawals recorded by the real L2 are committed, the period waited out, and every leaf claimed (and re-claimed) on the real L1; an amount lattice around 2^63/2^64/2^255 is pushed through three paths; hostile denoms and address strings.",
+   text="Completeness monitor over two real chains and a faithful executor model that acts only on parsed events: for every tree size up to the bound, both completion rules, mixes of user and refund withdrawals recorded by the real L2 are committed, the period waited out, and every leaf claimed (and re-claimed) on the real L1; an amount lattice around 2^63/2^64/2^255 is pushed through three paths; hostile denoms and address strings; withdrawals executed inside multi-message deposit hooks, where acceptance is read from the state (sequence advanced, tokens burned) and must equal what was announced.",
    note=TB+" Premise: positive amount, valid L1 recipient.", technique="runtime completeness monitor (every recorded withdrawal must finalize) with boundary-value lattice"),
  "C05": dict(level="exploration", design="§3 C05",
    text="Timeline monitor with a three-valued finality model in exact nanoseconds: a deterministic lattice drives an output of every accepted period to block times exactly at and one tick around T0+P and probes finalize/delete/query on branches; random timelines add propose/delete/re-propose/role interleavings; creation lattice offers zero, negative, sub-second and huge periods.",
    note=TB+" Inside the 1-second band either answer is accepted.", technique="runtime timeline monitor with boundary-value lattice"),
  "C06": dict(level="exploration", design="§3 C06",
-   text="Step-by-step comparison with the sequential model of the sequence gate: all schedules of length 4/5 over {seq 1..4}x{two executors, stranger} without memoisation, depth 8/10 with state-digest memoisation, and long random schedules with duplicates, replays, gaps, multi-message transactions, executor rotation, refunds and unrelated traffic; NOOP must leave the written state byte-identical.",
+   text="Step-by-step comparison with the sequential model of the sequence gate: all schedules of length 4/5 over {seq 1..4}x{two executors, stranger} without memoisation, depth 8/10 with state-digest memoisation, and long random schedules with duplicates, replays, gaps, multi-message transactions, executor rotation, refunds (also for denoms whose bank metadata pre-exists), speculative execution on discarded branches and unrelated traffic; NOOP must leave the written state byte-identical.",
    note=TB, technique="runtime sequential reference model over exhaustive and random delivery schedules"),
  "C07": dict(level="fault_enumeration", design="§3 C07",
    text="Outcome classifier (CREDIT / REFUND / illegal) over balances, supply, sequences, events and the auth store, applied to 250+ input classes (recipient x amount x payload) fault-free and with an error and a panic injected at every recorded bank/account-keeper call (five proxy layers), plus byte-mutation and random fuzz of the hook payload and a recording gas meter for the hook-gas bound.",
